@@ -236,7 +236,8 @@ struct HCv : Harness {
     if (c06) {
       uint64_t r = wr.below(100);
       bool thorough = tier != "quick";
-      routine = r < 55 ? R_BOOT : r < 65 ? R_YSCR_LOO : r < (thorough ? 69u : 66u) ? R_YSCR_BOOT : r < 76 ? R_KMEANS_CV : r < 86 ? R_PCARANK : R_SPLIT_CONC;
+      routine = r < 45 ? R_BOOT : r < 53 ? R_LOO : r < 60 ? R_KFOLD : r < 67 ? R_YSCR_LOO : r < (thorough ? 70u : 68u) ? R_YSCR_BOOT : r < 77 ? R_KMEANS_CV : r < 86 ? R_PCARANK : R_SPLIT_CONC;
+      if (routine == R_KFOLD && learner == L_LDA) learner = (int)wr.below(2);
       n = (int)wr.range(6, 24); px = (int)wr.range(1, 5); ny = (int)wr.range(1, 2);
       if (routine == R_YSCR_BOOT) { n = (int)wr.range(8, 11); px = (int)wr.range(1, 2); ny = 1; }
       if (routine == R_YSCR_LOO) { n = (int)wr.range(6, 12); }
@@ -305,11 +306,11 @@ struct HCv : Harness {
   // ------------------------------------------------------------------------------------------
   struct RunRes { int rc; sim_result sr; int unjoined; std::string race_cls, race_txt, switches; };
 
-  RunRes run_once(const Plan &p, const Case &c, Out &o, int strategy_override, int nthreads, int nproc, bool noise, long long clock_shift, const Mat *Yover = nullptr, bool prior = false) {
+  RunRes run_once(const Plan &p, const Case &c, Out &o, int strategy_override, int nthreads, int nproc, bool noise, long long clock_shift, const Mat *Yover = nullptr, bool prior = false, int garbage_mode = 1) {
     sim_cfg sc; std::vector<sim_switch> rs;
     cfg_from_plan(p, sc, rs);
     if (strategy_override >= 0) { sc.strategy = strategy_override; sc.replay = nullptr; sc.n_replay = 0; }
-    sc.nproc = nproc; sc.clock0 += clock_shift; sc.step_limit = STEP_CEILING;
+    sc.nproc = nproc; sc.clock0 += clock_shift; sc.step_limit = STEP_CEILING; sc.garbage_mode = garbage_mode;
     sim_begin_run(&sc);
     Call k{&c, &o, nthreads, noise, Yover, prior};
     RunRes r;
@@ -337,11 +338,13 @@ struct HCv : Harness {
     sim_conflicts_clear();
     // A: sequential reference (one worker at a time, one processor)
     bool prior = p.geti("prior_call", 0) != 0;
-    RunRes ra = run_once(p, c, A, SIM_S0_SEQUENTIAL, 1, 1, false, 0, nullptr, prior);   // preceded by other calls of the same routine when the plan says so
+    // the three executions also differ in what freshly allocated memory holds (zeros / NaN garbage / huge finite numbers): a result
+    // that depends on uninitialised memory cannot agree across them
+    RunRes ra = run_once(p, c, A, SIM_S0_SEQUENTIAL, 1, 1, false, 0, nullptr, prior, 2);   // preceded by other calls of the same routine when the plan says so
     // C: requested thread count, canonical schedule, no noise (also the profiling pass for S4)
-    RunRes rc = run_once(p, c, C, SIM_S0_SEQUENTIAL, c.nthreads, c.nproc, false, 1000);
+    RunRes rc = run_once(p, c, C, SIM_S0_SEQUENTIAL, c.nthreads, c.nproc, false, 1000, nullptr, false, 1);
     // B: requested thread count under the plan's schedule, with the noise client
-    RunRes rb = run_once(p, c, B, -1, c.nthreads, c.nproc, c.noise != 0, 777777);
+    RunRes rb = run_once(p, c, B, -1, c.nthreads, c.nproc, c.noise != 0, 777777, nullptr, false, 3);
     for (RunRes *r : {&ra, &rc, &rb}) fill_outcome_from_sim(o, r->sr, plan_strategy);
     if (p.geti("prior_call", 0)) o.counters["probe.prior_call_of_same_routine"]++;
     o.sched_sig = rb.sr.sched_sig;
